@@ -1,0 +1,12 @@
+//go:build verif
+
+// Contracts for package bufferpool, read by /verif/govc. Comment-only.
+
+package bufferpool
+
+// bufferpool.Get is the method value _pool.Get (buffer.Pool.Get bound to the shared pool):
+// the contract of (buffer.Pool).Get, restated for calls through the variable.
+//@ callback global:internal/bufferpool.Get
+//@   modifies nothing
+//@   ensures fresh(result) && len(result.bs) == 0 && seq(result.bs) == "" && result.pool.p != nil
+//@   ensures arr(result.bs) == nil || fresh(result.bs)
